@@ -652,4 +652,136 @@ int g_i, g_l;
   __CPROVER_loop_invariant(WD_ALL(DONE_L ? 1 : 0) && (DONE_L ==> DP_SPEC))                                             \
   __CPROVER_decreases(TT - UL)
 
+
+/* ================= ProjDataInfo::ProjDataInfoCTI: span / max_delta -> segments (ProjDataInfo.cxx) =================
+   Statement kernel: from the temporary ring-difference lists to the per-segment vectors handed to the constructor.
+   Parametric in the span (job constant C01_SPAN); number of rings and max_delta symbolic.
+   From the property ("ring pairs are partitioned over (segment, axial position): every ring pair whose ring difference is
+   covered lies in exactly one"): the segments' ring-difference intervals are non-empty, symmetric about 0, contiguous,
+   increasing with the segment number (hence pairwise disjoint) and cover exactly [-max_delta, max_delta] - this is what
+   PDI2_VALID assumes of constructed data. */
+#ifndef C01_SPAN
+#define C01_SPAN 3
+#endif
+#define CTI_MAXR 128
+static inline int K_vidx(int i, int n)
+{
+  __CPROVER_assert(i >= 0 && i < n, "std::vector<int>(num_ring) indexed inside its size");
+  return i;
+}
+#define VIDX(i) K_vidx(i, num_ring)
+/* the three output vectors, projected onto two ghost segments g_s, g_s2 */
+int g_out_lo, g_out_hi, g_out_ranges;
+struct SEGOUT { int min_ring_difference, max_ring_difference, num_axial_pos_per_segment; int w_min_ring_difference, w_max_ring_difference, w_num_axial_pos_per_segment; };
+struct SEGOUT g_o1, g_o2;
+#define OUT_RANGE(lo, hi)                                                                                             \
+  do                                                                                                                  \
+    {                                                                                                                 \
+      __CPROVER_assert(g_out_ranges == 0 || (g_out_lo == (lo) && g_out_hi == (hi)), "the three per-segment vectors have the same index range"); \
+      g_out_lo = (lo);                                                                                                \
+      g_out_hi = (hi);                                                                                                \
+      ++g_out_ranges;                                                                                                 \
+    }                                                                                                                 \
+  while (0)
+#define OUT_WRITE(name, idx, e)                                                                                       \
+  do                                                                                                                  \
+    {                                                                                                                 \
+      const int K_i = (idx);                                                                                          \
+      const int K_e = (e);                                                                                            \
+      __CPROVER_assert(g_out_ranges == 3 && K_i >= g_out_lo && K_i <= g_out_hi, "per-segment vector written inside its index range"); \
+      if (K_i == g_s)                                                                                                 \
+        {                                                                                                             \
+          g_o1.name = K_e;                                                                                            \
+          ++g_o1.w_##name;                                                                                            \
+        }                                                                                                             \
+      if (K_i == g_s2)                                                                                                \
+        {                                                                                                             \
+          g_o2.name = K_e;                                                                                            \
+          ++g_o2.w_##name;                                                                                            \
+        }                                                                                                             \
+    }                                                                                                                 \
+  while (0)
+/* closed forms of the temporary lists (segment k >= 0), span = C01_SPAN */
+#define CTI_A0 ((C01_SPAN % 2 == 1) ? -((C01_SPAN - 1) / 2) : -(C01_SPAN / 2))
+#define CTI_B0 ((C01_SPAN % 2 == 1) ? CTI_A0 + C01_SPAN - 1 : CTI_A0 + C01_SPAN)
+#define CTI_MIN(k) ((k) == 0 ? CTI_A0 : CTI_B0 + 1 + ((k)-1) * C01_SPAN)
+#define CTI_MAXU(k) ((k) == 0 ? CTI_B0 : CTI_MIN(k) + C01_SPAN - 1) /* before the last segment is clipped to max_delta */
+#define CTI_ABS(x) ((x) < 0 ? -(x) : (x))
+#define CTI_TOP (g_out_hi) /* max_seg_num */
+#define CTI_MAXC(k) (((k) == CTI_TOP && CTI_MAXU(k) > max_delta) ? max_delta : CTI_MAXU(k))
+#define CTI_SPEC_MIN(sg) ((sg) >= 0 ? CTI_MIN(sg) : -CTI_MAXC(-(sg)))
+#define CTI_SPEC_MAX(sg) ((sg) >= 0 ? CTI_MAXC(sg) : -CTI_MIN(-(sg)))
+#define CTI_SPEC_NAX(sg) (C01_SPAN == 1 ? num_ring - CTI_ABS(sg) : ((sg) == 0 ? 2 * num_ring - 1 : 2 * num_ring - 1 - 2 * CTI_MIN(CTI_ABS(sg))))
+#define SEGOUT_ONCE(o) ((o).w_min_ring_difference == 1 && (o).w_max_ring_difference == 1 && (o).w_num_axial_pos_per_segment == 1)
+#define SEGOUT_SPEC(o, sg) ((o).min_ring_difference == CTI_SPEC_MIN(sg) && (o).max_ring_difference == CTI_SPEC_MAX(sg) && (o).num_axial_pos_per_segment == CTI_SPEC_NAX(sg))
+#define CTI_ENS(c) __CPROVER_ensures(g_error || (c))
+#define CONTRACT_K_cti_segments                                                                                      \
+  __CPROVER_requires(span == C01_SPAN && num_ring >= 1 && num_ring <= CTI_MAXR && max_delta > -100000 && max_delta < 100000 && g_error == 0) \
+  /* ghost list positions = the ghost segments' absolute values */                                                    \
+  __CPROVER_requires(g_s > -1000 && g_s < 1000 && g_s2 > -1000 && g_s2 < 1000 && g_v == CTI_ABS(g_s) && g_tp == CTI_ABS(g_s2)) \
+  __CPROVER_requires(g_out_ranges == 0 && g_o1.w_min_ring_difference == 0 && g_o1.w_max_ring_difference == 0 && g_o1.w_num_axial_pos_per_segment == 0 \
+                     && g_o2.w_min_ring_difference == 0 && g_o2.w_max_ring_difference == 0 && g_o2.w_num_axial_pos_per_segment == 0) \
+  __CPROVER_assigns(g_error, g_out_lo, g_out_hi, g_out_ranges, g_o1, g_o2)                                             \
+  /* a span / max_delta combination for which no symmetric partition exists is reported as an error (segment 0 holds the    \
+     ring differences -(span/2)..+(span/2), so max_delta must be at least span/2) */                                   \
+  __CPROVER_ensures(g_error == ((max_delta > num_ring - 1 || span < 1 || span > 2 * num_ring - 1 || max_delta < span / 2) ? 1 : 0)) \
+  CTI_ENS(g_out_ranges == 3 && g_out_lo == -g_out_hi && g_out_hi >= 0 && g_out_hi < num_ring)               \
+  /* every segment's entries are written exactly once, with the closed-form values */                                 \
+  CTI_ENS((g_s >= g_out_lo && g_s <= g_out_hi) ==> (SEGOUT_ONCE(g_o1) && SEGOUT_SPEC(g_o1, g_s)))            \
+  CTI_ENS((g_s2 >= g_out_lo && g_s2 <= g_out_hi) ==> (SEGOUT_ONCE(g_o2) && SEGOUT_SPEC(g_o2, g_s2)))         \
+  /* ... and those values form a partition of [-max_delta, max_delta] */                                              \
+  CTI_ENS((g_s >= g_out_lo && g_s <= g_out_hi) ==> (g_o1.min_ring_difference <= g_o1.max_ring_difference && g_o1.num_axial_pos_per_segment >= 1)) \
+  CTI_ENS((g_s >= g_out_lo && g_s2 <= g_out_hi && g_s < g_s2) ==> g_o1.max_ring_difference < g_o2.min_ring_difference) \
+  CTI_ENS((g_s >= g_out_lo && g_s2 <= g_out_hi && g_s2 == g_s + 1) ==> g_o2.min_ring_difference == g_o1.max_ring_difference + 1) \
+  CTI_ENS((g_s >= g_out_lo && g_s <= g_out_hi && g_s2 == -g_s) ==> g_o1.min_ring_difference == -g_o2.max_ring_difference) \
+  CTI_ENS(g_s == g_out_hi ==> g_o1.max_ring_difference == max_delta)                                         \
+  CTI_ENS(g_s == g_out_lo ==> g_o1.min_ring_difference == -max_delta)
+/* while loop building the temporary lists; ghost indices g_v, g_tp stand for two arbitrary earlier entries */
+#define TMP_OK(k) (RDmintmp[k] == CTI_MIN(k) && RDmaxtmp[k] == CTI_MAXU(k))
+#define LC_K_cti_segments_0                                                                                          \
+  __CPROVER_assigns(seg_num, __CPROVER_object_whole(RDmintmp), __CPROVER_object_whole(RDmaxtmp))                        \
+  __CPROVER_loop_invariant(0 <= seg_num && seg_num < num_ring && TMP_OK(seg_num) && CTI_MAXU(seg_num) < max_delta + C01_SPAN + 1) \
+  __CPROVER_loop_invariant((0 <= g_v && g_v <= seg_num) ==> TMP_OK(g_v))                                               \
+  __CPROVER_loop_invariant((0 <= g_tp && g_tp <= seg_num) ==> TMP_OK(g_tp))                                            \
+  __CPROVER_loop_invariant(seg_num == 0 || CTI_MAXU(seg_num - 1) < max_delta)                                          \
+  __CPROVER_decreases(max_delta + C01_SPAN + 1 - CTI_MAXU(seg_num))
+#define CTI_ASSIGNS g_o1, g_o2
+#define CTI_DONE(o, sg, i) ((o).w_min_ring_difference == (((sg) == 0 || (CTI_ABS(sg) < (i) && CTI_ABS(sg) <= max_seg_num)) ? 1 : 0) \
+                            && (o).w_max_ring_difference == (((sg) == 0 || (CTI_ABS(sg) < (i) && CTI_ABS(sg) <= max_seg_num)) ? 1 : 0))
+#define CTI_RD_SPEC(o, sg) ((o).min_ring_difference == CTI_SPEC_MIN(sg) && (o).max_ring_difference == CTI_SPEC_MAX(sg))
+#define LC_K_cti_segments_1                                                                                          \
+  __CPROVER_assigns(i, CTI_ASSIGNS)                                                                                    \
+  __CPROVER_loop_invariant(1 <= i && i <= max_seg_num + 1)                                                             \
+  __CPROVER_loop_invariant(CTI_DONE(g_o1, g_s, i) && CTI_DONE(g_o2, g_s2, i))                                          \
+  __CPROVER_loop_invariant(g_o1.w_num_axial_pos_per_segment == 0 && g_o2.w_num_axial_pos_per_segment == 0)             \
+  __CPROVER_loop_invariant(((g_s == 0 || CTI_ABS(g_s) < i) && CTI_ABS(g_s) <= max_seg_num) ==> CTI_RD_SPEC(g_o1, g_s)) \
+  __CPROVER_loop_invariant(((g_s2 == 0 || CTI_ABS(g_s2) < i) && CTI_ABS(g_s2) <= max_seg_num) ==> CTI_RD_SPEC(g_o2, g_s2)) \
+  __CPROVER_decreases(max_seg_num + 1 - i)
+#define NAX_DONE(o, sg, i) ((o).w_num_axial_pos_per_segment == (((sg) == 0 || (CTI_ABS(sg) < (i) && CTI_ABS(sg) <= max_seg_num)) ? 1 : 0))
+#define LC_NAX                                                                                                        \
+  __CPROVER_assigns(i, CTI_ASSIGNS)                                                                                    \
+  __CPROVER_loop_invariant(1 <= i && i <= max_seg_num + 1)                                                             \
+  __CPROVER_loop_invariant(NAX_DONE(g_o1, g_s, i) && NAX_DONE(g_o2, g_s2, i))                                          \
+  __CPROVER_loop_invariant(g_o1.w_min_ring_difference == __CPROVER_loop_entry(g_o1.w_min_ring_difference) && g_o1.w_max_ring_difference == __CPROVER_loop_entry(g_o1.w_max_ring_difference) \
+                           && g_o2.w_min_ring_difference == __CPROVER_loop_entry(g_o2.w_min_ring_difference) && g_o2.w_max_ring_difference == __CPROVER_loop_entry(g_o2.w_max_ring_difference) \
+                           && g_o1.min_ring_difference == __CPROVER_loop_entry(g_o1.min_ring_difference) && g_o1.max_ring_difference == __CPROVER_loop_entry(g_o1.max_ring_difference) \
+                           && g_o2.min_ring_difference == __CPROVER_loop_entry(g_o2.min_ring_difference) && g_o2.max_ring_difference == __CPROVER_loop_entry(g_o2.max_ring_difference)) \
+  __CPROVER_loop_invariant(((g_s == 0 || CTI_ABS(g_s) < i) && CTI_ABS(g_s) <= max_seg_num) ==> g_o1.num_axial_pos_per_segment == CTI_SPEC_NAX(g_s)) \
+  __CPROVER_loop_invariant(((g_s2 == 0 || CTI_ABS(g_s2) < i) && CTI_ABS(g_s2) <= max_seg_num) ==> g_o2.num_axial_pos_per_segment == CTI_SPEC_NAX(g_s2)) \
+  __CPROVER_decreases(max_seg_num + 1 - i)
+#define LC_K_cti_segments_2 LC_NAX
+#define LC_K_cti_segments_3 LC_NAX
+
+
+/* ================= the float block of initialise_ring_diff_arrays (three statement kernels) =================
+   m_offset[s], ax_pos_num_offset[s] and segment_axial_pos_to_ring1_plus_ring2[s][ax] are computed in single precision with
+   round().  Composition lemma (h_lemma_rpr, real bodies, every float ring spacing in [0.1, 100] mm): under the code's own
+   integrality condition ((max_ax + min_ax) divisible by the axial positions per ring increment)
+       ring1_plus_ring2[s][ax] == 2*ax/inc + ax_pos_num_offset[s]   and   ax_pos_num_offset[s] == num_rings - 1 - (max_ax + min_ax)/inc
+   which is the reader contract SPEC_RPR the ring-pair kernels assume. */
+#define CONTRACT_K_rda_m_offset
+#define CONTRACT_K_rda_ax_offset
+#define CONTRACT_K_rda_rpr
+static inline float K_axial_sampling(float ring_spacing, int inc) { return ring_spacing / inc; } /* get_axial_sampling(): ring_spacing / get_num_axial_poss_per_ring_inc() */
+#define K_round_value(x) K_round_float(x)
 #endif
